@@ -58,8 +58,18 @@ Ltac dcase :=
 Ltac dunf := repeat (progress (unfold or_, and_, bind, ret, get_st, r_level, r_hibernating, r_generations, r_metaepoch_count, deme_of; cbn beta iota zeta)).
 Ltac dunit := repeat match goal with u : unit |- _ => destruct u end.
 Create HintDb gendrv.
+(* field updates of one deme that do not depend on each other may come in any order in the source: both sides are brought to the
+   normal form "one update function per deme" and compared field by field *)
+Lemma upd_upd' i f g l : upd i f (upd i g l) = upd i (fun d => f (g d)) l.
+Proof. revert i. induction l as [|x l IH]; intros [|i]; cbn; try reflexivity. now rewrite IH. Qed.
+Lemma upd_ext i f g l : (forall d, f d = g d) -> upd i f l = upd i g l.
+Proof. intros E. revert i. induction l as [|x l IH]; intros [|i]; cbn; try reflexivity; [now rewrite E|now rewrite IH]. Qed.
+Ltac dstate :=
+  unfold p_append_meta, p_count_evals, p_deactivate, p_set_hibernating; cbn beta iota zeta;
+  cbn [ms with_ms pend set_demes with_state demes seen mcount pc steps clock born_after_seen last_round];
+  rewrite ?upd_upd'; repeat f_equal; apply upd_ext; intros []; reflexivity.
 Ltac dsolve := dunf; rewrite ?Nat.add_1_r;
-  repeat (first [reflexivity | congruence | progress (autorewrite with gendrv) | dcase; cbn beta iota zeta in *; cbn [andb orb negb] in *; dunf; dunit; try discriminate]).
+  repeat (first [reflexivity | congruence | progress (autorewrite with gendrv) | solve [dstate] | dcase; cbn beta iota zeta in *; cbn [andb orb negb] in *; dunf; dunit; try discriminate]).
 
 (* ---------------------------------------------------------------- the deme loops *)
 Lemma EA_cond c fuel d g s e : gen_EADeme_run_metaepoch_cond1 c fuel d g s e = gens_cond c d g s e.
